@@ -16,6 +16,11 @@ def alphabet():
         for r in (0, 1):
             for a in (0, 5):
                 al.append(f"D:{f}:{r}:{a}:{f:02x}{r:02x}")
+    # the same payload under different frame numbers, first transmissions and retransmissions (two identical callbacks
+    # in a row are two frames: both are handed up)
+    for f in (0, 1, 2, 7):
+        for r in (0, 1):
+            al.append(f"D:{f}:{r}:0:aa")
     al += ["A:0:0:1", "A:0:1:6", "N:0:0:1", "N:1:0:4", "R", "K:2:11", "K:2:2", "K:2:85", "E:2:81", "E:2:2", "E:2:200", "D:3:0:1:-"]
     return al
 
@@ -148,7 +153,7 @@ def run(ctx):
         for _ in range(200):
             t = rng.random()
             if t < 0.6:
-                seq.append(f"D:{cur}:0:{rng.randrange(8)}:{rng.getrandbits(16):04x}")
+                seq.append(f"D:{cur}:{1 if rng.random() < 0.2 else 0}:{rng.randrange(8)}:{rng.choice(['aa', 'aa', f'{rng.getrandbits(16):04x}'])}")
                 cur = (cur + 1) % 8
             elif t < 0.75:
                 seq.append(f"D:{(cur + rng.randint(1, 7)) % 8}:{rng.randint(0, 1)}:0:ee")
